@@ -267,3 +267,39 @@ def _show(e):
 def short(path):
     # drop generic noise for display
     return path
+
+
+def all_def_exprs(fn, l, depth=12):
+    """Expressions of every definition (whole-local assignments and call results) of local l."""
+    out = []
+    for dd in defs_of(fn).all(l):
+        if dd[0] == "stmt":
+            out.append(rvalue_expr(fn, dd[3]["rv"], depth, frozenset([l])))
+        elif dd[0] == "call":
+            out.append(call_expr(fn, dd[2], depth, frozenset([l])))
+    return out
+
+
+def mentions_deep(fn, e, pred, _seen=None, depth=6):
+    """Like mentions(), but opaque ("local", l, _) nodes are expanded through all their definitions."""
+    _seen = _seen if _seen is not None else set()
+    for x in walk(e):
+        if pred(x):
+            return True
+        if isinstance(x, tuple) and x and x[0] == "local" and depth > 0:
+            l = x[1]
+            if l in _seen:
+                continue
+            _seen.add(l)
+            for d in all_def_exprs(fn, l):
+                if mentions_deep(fn, d, pred, _seen, depth - 1):
+                    return True
+    return False
+
+
+def is_call(x, *suffixes):
+    return isinstance(x, tuple) and len(x) > 1 and x[0] == "call" and any(x[1] == s or x[1].endswith(s) for s in suffixes)
+
+
+def is_const(x, *values):
+    return isinstance(x, tuple) and len(x) > 1 and x[0] == "const" and (not values or x[1] in values)
